@@ -15,7 +15,9 @@ SHARED = (
     " Shared rules run first in every check over the modules the property is anchored in (and, for state they own, over the "
     "rest of the package): M - no result is kept in persistent state under a key that omits a parameter it depends on; "
     "V - no in-place write through a view of caller-owned data or of an object's stored arrays (view-taint analysis); "
-    "G - no one-shot iterator is consumed twice (typestate), nothing positional derives from the order of a set or of a caller's mapping; "
+    "G - no one-shot iterator is consumed twice (typestate), nothing positional derives from the order of a set or of a caller's mapping, "
+    "values computed on argsort-ed data are un-sorted with the inverse permutation; "
+    "D - no floating type narrower than double is named as a working or storage type; "
     "W - a decorated public function means the same for positional and keyword calls (decorators, properties, __setattr__, "
     "the MRO and name mangling are interpreted, not skipped)."
 )
